@@ -177,3 +177,21 @@ Qed.
 Theorem serve_holds_model_other c now ep w s loc car :
   is_3xx s = false -> serve_holds c now ep w s loc car = true.
 Proof. intros H. unfold serve_holds. rewrite H. reflexivity. Qed.
+
+(* the outermost handler: outside the authenticator's routes the model never answers 3xx, so the
+   monitor accepts its prediction; on a route the monitor is the route's monitor *)
+Theorem outer_holds_model_unrouted c sh rh p now w :
+  outer_routed sh rh p = None ->
+  outer_holds c sh rh p now w (status_of (outer_serve c sh rh p now w)) None = true.
+Proof.
+  intros H. unfold outer_holds. unfold outer_routed in H. unfold outer_serve.
+  destruct p as [| |ep]; try (destruct (str_eqb rh sh); reflexivity); try reflexivity.
+  destruct (str_eqb rh sh); [discriminate H | reflexivity].
+Qed.
+
+Theorem outer_holds_routed c sh rh p now w ep s loc :
+  outer_routed sh rh p = Some ep ->
+  outer_holds c sh rh p now w s loc = true <-> serve_holds c now ep w s loc None = true.
+Proof.
+  intros H. unfold outer_holds. rewrite H. unfold serve_holds. destruct (negb (is_3xx s)); tauto.
+Qed.
